@@ -22,6 +22,8 @@ def sh(cmd, **kw):
 if not os.path.isdir(wt):
     r = sh(f"git -C /repo worktree add -q --detach {wt} HEAD"); assert r.returncode == 0, r.stderr
 sh(f"git -C {wt} checkout -- .")
+head = sh("git -C /repo rev-parse HEAD").stdout.strip()
+sh(f"git -C {wt} checkout -q --detach {head}")
 res = {'seed': seed, 'property': pid}
 env = dict(os.environ, PYTHONPATH=wt)
 if a.confirm:
